@@ -377,6 +377,8 @@ def task_pe(ctx, cfg, levels, lname, kind, what, method=None):
     f = lambda *a: leaves(eq.explicit_terms(mk(*a)))
   elif what == 'implicit':
     f = lambda *a: leaves(eq.implicit_terms(mk(*a))) + leaves(eq.implicit_inverse(mk(*a), 0.1))
+  elif what == 'implicit_stacked':
+    f = lambda *a: leaves(eq.implicit_inverse(mk(*a), 0.1, method='stacked')) + leaves(eq.implicit_inverse(mk(*a), -0.07))
   elif what == 'implicit_blockwise':
     # the cumulative-sum ('sparse') vertical operators and the blockwise solve built on them
     f = lambda *a: leaves(eq.implicit_terms(mk(*a))) + leaves(eq.implicit_inverse(mk(*a), 0.1, method='blockwise'))
@@ -719,6 +721,7 @@ def make_tasks(tier, seed):
            dict(name='pe-dry-euler-step', fn='task_pe', kw=dict(cfg=cfg, levels=LS['dy2'].tolist(), lname='dy2', kind='dry', what='euler_step')),
            dict(name='sw-euler', fn='task_sw', kw=dict(cfg=dict(M=2, L=3, nlon=6, nlat=4), integrator='backward_forward_euler')),
            dict(name='sw-euler-fast-padded', fn='task_sw', kw=dict(cfg=cfgp2, integrator='backward_forward_euler'))]
+  tasks.append(dict(name='pe-dry-implicit-stacked', fn='task_pe', kw=dict(cfg=cfg, levels=LS['dy3'].tolist(), lname='dy3', kind='dry', what='implicit_stacked')))
   tasks.append(dict(name='pe-dry-implicit-sparse', fn='task_pe', kw=dict(cfg=cfgp2, levels=LS['dy3'].tolist(), lname='dy3', kind='dry', what='implicit_blockwise', method='sparse')))
   tasks.append(dict(name='pe-moist-explicit-small', fn='task_pe', kw=dict(cfg=dict(M=2, L=3, nlon=6, nlat=4), levels=LS['dy2'].tolist(), lname='dy2', kind='moist', what='explicit')))
   tasks.append(dict(name='held-suarez', fn='task_held_suarez', kw=dict(cfg=dict(M=2, L=3, nlon=6, nlat=4), levels=LS['dy2'].tolist(), lname='dy2')))
